@@ -274,6 +274,11 @@ struct Model {
     payloads: Vec<Ty>,
     aliases: Vec<Ty>,
     consts: Vec<&'static str>,
+    /// generic aliases / newtype structs / tagged-enum payloads whose target mentions the item's own parameters
+    galiases: Vec<Ty>,
+    gnewtypes: Vec<Ty>,
+    gpayloads: Vec<Ty>,
+    gparams: Vec<String>,
 }
 
 fn render(m: &Model, rng: &mut Rng) -> String {
@@ -296,6 +301,20 @@ fn render(m: &Model, rng: &mut Rng) -> String {
     }
     for (i, p) in m.consts.iter().enumerate() {
         s.push_str(&format!("#[typeshare]\npub const CONST_{i}: {p} = {};\n", i + 1));
+    }
+    let gp = format!("<{}>", m.gparams.join(", "));
+    for (i, t) in m.galiases.iter().enumerate() {
+        s.push_str(&format!("#[typeshare]\npub type Palias{i}{gp} = {};\n", t.render(rng, true)));
+    }
+    for (i, t) in m.gnewtypes.iter().enumerate() {
+        s.push_str(&format!("#[typeshare]\npub struct Pnew{i}{gp}({});\n", t.render(rng, true)));
+    }
+    if !m.gpayloads.is_empty() {
+        s.push_str(&format!("#[typeshare]\n#[serde(tag = \"t\", content = \"c\")]\npub enum Pchoice{gp} {{\n"));
+        for (i, t) in m.gpayloads.iter().enumerate() {
+            s.push_str(&format!("    Gpay{i}({}),\n", t.render(rng, true)));
+        }
+        s.push_str("}\n\n");
     }
     s
 }
@@ -372,6 +391,7 @@ fn judge(case: &Case<Model>, rep: &mut Report) {
         }
         rep.eval(1);
         rep.count(&format!("type_expressions_compared_{lname}"), 1);
+        rep.count(&format!("position_{pos}"), 1);
         rep.cell(format!("{lname}|{pos}|depth{}|{}", t.depth().min(5), shape_class(t)));
         if let Err(cls) = matches(&env, &t_eff, &x_eff) {
             let cls_short: String = cls.split(':').last().unwrap_or(&cls).to_string();
@@ -421,6 +441,38 @@ fn judge(case: &Case<Model>, rep: &mut Report) {
             }
         }
     }
+    for (what, list) in [("Palias", &m.galiases), ("Pnew", &m.gnewtypes)] {
+        for (i, t) in list.iter().enumerate() {
+            let name = format!("{prefix}{what}{i}");
+            match file.defs.iter().find(|d| d.kind == DefKind::Alias && d.name == name) {
+                Some(d) => {
+                    if d.generics != m.gparams {
+                        rep.violate(format!("C05|{lname}|generic-parameters-changed|generic-alias"), format!("{name} generics {:?} for {:?}", d.generics, m.gparams), case.detail(json!({"definition": name})));
+                    }
+                    if let Some(x) = &d.alias_target {
+                        check(if what == "Palias" { "generic-alias" } else { "generic-newtype" }, t, x, &m.gparams, d.alias_markers.contains("|undefined"), rep);
+                    }
+                }
+                None => rep.violate(format!("C05|{lname}|generic-alias-missing"), format!("{name} not found as an alias under its (prefixed) name"), case.detail(json!({"definition": name}))),
+            }
+        }
+    }
+    if !m.gpayloads.is_empty() {
+        match file.defs.iter().find(|d| d.name == format!("{prefix}Pchoice") && d.kind == DefKind::TaggedEnum) {
+            Some(c) => {
+                if c.generics != m.gparams {
+                    rep.violate(format!("C05|{lname}|generic-parameters-changed|generic-enum"), format!("Pchoice generics {:?} for {:?}", c.generics, m.gparams), case.detail(json!(null)));
+                }
+                for (t, v) in m.gpayloads.iter().zip(c.variants.iter()) {
+                    if let Payload::Newtype(x) = &v.payload {
+                        let top = matches!(case.lang, LangId::Ts | LangId::Python) && (v.markers.contains("?") || v.markers.contains("Optional"));
+                        check("generic-payload", t, x, &m.gparams, top, rep);
+                    }
+                }
+            }
+            None => rep.violate(format!("C05|{lname}|generic-enum-missing"), "enum Pchoice not found under its (prefixed) name".to_string(), case.detail(json!(null))),
+        }
+    }
     for (i, p) in m.consts.iter().enumerate() {
         let want: Vec<String> = vec![format!("CONST_{i}"), format!("Const{i}"), format!("CONST{i}")];
         if let Some(d) = file.defs.iter().find(|d| d.kind == DefKind::Const && want.contains(&d.name)) {
@@ -465,7 +517,7 @@ pub fn run(ctx: &Ctx) -> (Spec, Report) {
     let exh = enumerate_depth2();
     let per = 40usize;
     let n_exh = (exh.len() + per - 1) / per;
-    let n = n_exh + ctx.tier.pick(2500, 30_000);
+    let n = 2 * n_exh + ctx.tier.pick(2500, 30_000);
     let exh_ref = &exh;
     let rep = run_rounds(
         ctx,
@@ -474,9 +526,17 @@ pub fn run(ctx: &Ctx) -> (Spec, Report) {
         false,
         |rng: &mut Rng, i| {
             let mut model;
-            if i < n_exh {
+            let mut generic_items = false;
+            if i >= n_exh && i < 2 * n_exh {
+                // the same exhaustive expressions, those that mention T, as generic alias / newtype / payload targets
+                let j = i - n_exh;
+                let chunk = &exh_ref[j * per..((j + 1) * per).min(exh_ref.len())];
+                let withp: Vec<Ty> = chunk.iter().filter(|t| format!("{:?}", t).contains("Param")).cloned().collect();
+                model = Model { generics: vec![], fields: vec![Ty::Prim("u8")], payloads: vec![], aliases: vec![], consts: vec![], galiases: withp.clone(), gnewtypes: withp.clone(), gpayloads: withp, gparams: vec!["T".into()] };
+                generic_items = !model.galiases.is_empty();
+            } else if i < n_exh {
                 let chunk = &exh_ref[i * per..((i + 1) * per).min(exh_ref.len())];
-                model = Model { generics: vec!["T".into()], fields: chunk.to_vec(), payloads: vec![], aliases: vec![], consts: vec![] };
+                model = Model { generics: vec!["T".into()], fields: chunk.to_vec(), payloads: vec![], aliases: vec![], consts: vec![], galiases: vec![], gnewtypes: vec![], gpayloads: vec![], gparams: vec![] };
                 // payloads / aliases must not use the struct's type parameter
                 let nonparam: Vec<Ty> = chunk.iter().filter(|t| !t.show().contains('T') || t.show().contains("String")).filter(|t| !format!("{:?}", t).contains("Param")).cloned().collect();
                 model.payloads = nonparam.iter().take(12).cloned().collect();
@@ -493,7 +553,35 @@ pub fn run(ctx: &Ctx) -> (Spec, Report) {
                     aliases: (0..rng.range(0, 4)).map(|_| gen_ty(rng, &cx2, depth)).collect(),
                     consts: vec![],
                     generics,
+                    galiases: vec![],
+                    gnewtypes: vec![],
+                    gpayloads: vec![],
+                    gparams: vec![],
                 };
+                if rng.chance(1, 3) {
+                    // every generated target mentions at least one of the item's parameters
+                    let gparams: Vec<String> = if rng.coin() { vec!["T".into()] } else { vec!["K".into(), "V".into()] };
+                    let cxg = TyCtx { params: gparams.clone(), ..cx2.clone() };
+                    let with_param = |rng: &mut Rng| -> Ty {
+                        for _ in 0..20 {
+                            let t = gen_ty(rng, &cxg, depth);
+                            let s = format!("{:?}", t);
+                            if gparams.iter().all(|p| s.contains(&format!("Param(\"{p}\")"))) {
+                                return t;
+                            }
+                        }
+                        let mut t = Ty::Param(gparams[0].clone());
+                        if gparams.len() > 1 {
+                            t = Ty::Map(Box::new(Ty::Prim("String")), Box::new(Ty::User("Gen2".into(), vec![Ty::Param(gparams[0].clone()), Ty::Vec(Box::new(Ty::Param(gparams[1].clone())))])));
+                        }
+                        t
+                    };
+                    model.galiases = (0..rng.range(1, 4)).map(|_| with_param(rng)).collect();
+                    model.gnewtypes = (0..rng.range(0, 3)).map(|_| with_param(rng)).collect();
+                    model.gpayloads = (0..rng.range(0, 3)).map(|_| with_param(rng)).collect();
+                    model.gparams = gparams;
+                    generic_items = true;
+                }
                 // user types as map keys (typeshare accepts them)
                 if rng.chance(1, 3) {
                     model.fields.push(Ty::Map(Box::new(Ty::user("UserB")), Box::new(gen_ty(rng, &cx, 2))));
@@ -533,7 +621,10 @@ pub fn run(ctx: &Ctx) -> (Spec, Report) {
                 m2.consts = vec!["u8", "u32", "i16", "I54"];
                 langs.retain(|(l, _)| l.supports_const());
             }
-            // Go/Python do not support generic enums/aliases; payloads and aliases here are non-generic
+            // Go/Python do not support generic enums/aliases: programs with generic items go to the other four
+            if generic_items {
+                langs.retain(|(l, _)| !matches!(l, LangId::Go | LangId::Python));
+            }
             let mut r2 = Rng::new(src_rng_seed);
             let src = render(&m2, &mut r2);
             Gen { model: m2, files: vec![SrcFile { path: "src/lib.rs".into(), source: src }], multi: false, langs }
@@ -542,7 +633,7 @@ pub fn run(ctx: &Ctx) -> (Spec, Report) {
     );
     let spec = Spec {
         level: "exploration",
-        rule: format!("all {} type expressions of depth <= 2 over {{14 primitives, (), user type, generic parameter, generic instance}} closed under Vec, [T;3], &[T], Option, &T, 8 smart pointers, generic user type and HashMap with 7 key types (exhaustive, {} programs), plus random trees of depth <= 5; positions field / newtype payload / alias target / const type; random prefix and type_mappings tables (user types and generic bases for all backends, container instances for TS/Go/Python), path qualification varied; each use site is parsed back into a tree and compared with an independent reference translation under per-language JSON-category and integer-range tables; distinct = (language, position, depth, outer constructor)", exh.len(), n_exh),
+        rule: format!("all {} type expressions of depth <= 2 over {{14 primitives, (), user type, generic parameter, generic instance}} closed under Vec, [T;3], &[T], Option, &T, 8 smart pointers, generic user type and HashMap with 7 key types (exhaustive, {} programs), plus random trees of depth <= 5; positions field / newtype payload / alias target / const type / generic alias, generic newtype struct and generic tagged-enum payload whose target mentions the item's own parameters (TS, Kotlin, Swift, Scala); random prefix and type_mappings tables (user types and generic bases for all backends, container instances for TS/Go/Python), path qualification varied; each use site is parsed back into a tree and compared with an independent reference translation under per-language JSON-category and integer-range tables; distinct = (language, position, depth, outer constructor)", exh.len(), n_exh),
         assumptions: vec![
             "TypeScript has no nullable form at type level: an Option nested inside a container may translate to the bare element type".into(),
             "Go `int` and `uint` are taken at their guaranteed 32 bits; Python int is unbounded".into(),
